@@ -366,6 +366,16 @@ func (ex *Explorer) intrinsic(caller *frame, name string, args []value) (value, 
 		return nil, true
 	case "vIsSymbolic":
 		return true, true
+	case "vHint":
+		// vHint(key, value): a concrete note for the native replay of this path (e.g. which call
+		// site the positional fault hit), delivered with the solver's model
+		if ex.hints == nil {
+			ex.hints = map[string]string{}
+		}
+		ex.hints[args[0].(string)] = args[1].(string)
+		return nil, true
+	case "vHintGet":
+		return "", true // hints only exist in native replays
 	case "vExpireTimeouts":
 		if ex.S.ModelPkg != nil {
 			if f := ex.S.ModelPkg.Func("ExpireTimeouts"); f != nil {
